@@ -231,7 +231,9 @@ class Builder:
         return self.build(r[1]).T
 
     def _sub(self, r):
-        return self.build(r[1])[slice(r[2], r[3]), slice(r[4], r[5])]
+        rs = r[6] if len(r) > 6 else None
+        cs = r[7] if len(r) > 7 else None
+        return self.build(r[1])[slice(r[2], r[3], rs), slice(r[4], r[5], cs)]
 
     def _mbin(self, r):
         return _apply(r[1], self.build(r[2]), self.build(r[3]))
